@@ -11,14 +11,21 @@ def codes(s):
 
 class C13(Prop):
     pid = "C13"
-    lean_targets = ["M17.Props.C13", "M17.Props.C13A"]
+    lean_targets = ["M17.Props.C13", "M17.Props.C13A", "M17.Props.C13T"]
     theorems = ["M17.C13.inv_step", "M17.C13.plan_numbering", "M17.C13.eos_bit", "M17.C13.baseband_is_one_continuous_run",
-                "M17.C13A.ainv_step", "M17.C13A.plan_audio", "M17.C13A.plan_eq_specPlan"]
+                "M17.C13A.ainv_step", "M17.C13A.plan_audio", "M17.C13A.plan_eq_specPlan",
+                "M17.C13T.encodeBytes_eq", "M17.C13T.punct_eq_spec", "M17.C13T.ileave_eq_spec", "M17.C13T.randBits_eq_spec", "M17.C13T.packBits_eq_spec",
+                "M17.C13T.lsfBytes_eq_spec", "M17.C13T.sendLsf_eq_spec", "M17.C13T.lichSegment_eq_spec", "M17.C13T.streamFrame_eq_spec",
+                "M17.C13T.m17mod_lsf_decodes", "M17.C13T.m17mod_stream_decodes"]
     level_text = ("Lean 4 theorems: for EVERY audio length the modelled transmit() loop sends ceil(len/320)+1 stream frames numbered k mod 0x8000 "
                   "with LICH fragment k mod 6, the last one carrying the end-of-stream bit and the all-zero block (loop invariant by induction "
                   "over the samples); plan_audio / plan_eq_specPlan: every frame carries exactly its 320-sample window of the input, the partial last "
                   "window zero padded, nothing stale from an earlier block — the loop's whole plan (numbers, LICH indices, audio blocks, final "
-                  "frame) equals the specification's plan for every input length; shaping block after block through one FIR object equals one continuous run over the concatenated "
+                  "frame) equals the specification's plan for every input length; and the frame CONTENT (M17.Props.C13T): the model TxMod of send_lsf / "
+                  "make_data_frame / make_lich_segment / send_audio_frame / output_bitstream, written as the code is written (shift-register encoder, "
+                  "int8 0/1 arrays, int8 interleaver and xor randomizer, MSB-first packing), produces exactly Spec.Tx.lsfFrame / streamFrame "
+                  "(sendLsf_eq_spec, streamFrame_eq_spec: every callsign pair over the alphabet, CAN 0..15, LICH index 0..5, every frame number "
+                  "and payload), hence by C01F every such frame decodes bit-exact (m17mod_lsf_decodes, m17mod_stream_decodes); shaping block after block through one FIR object equals one continuous run over the concatenated "
                   "symbol stream (from C19). The per-frame encoders are compositions of the functions proved in C04/C09/C10/C11 (and round-trip "
                   "in C01); that m17-mod's bytes equal those of the independent specification encoder (Lean M17.Spec.Tx, also python) is NOT one "
                   "Lean theorem: it is checked byte-for-byte on every run at function level (send_lsf, make_lich_segment, make_data_frame, "
@@ -90,6 +97,12 @@ class C13(Prop):
                 k = next((i for i, (x, y) in enumerate(zip(a.split(), want.split())) if x != y), -1)
                 ctx.violate("m17mod:stream-frame", f"m17-mod stream frame (LICH {seg}, FN {fn:#06x}) differs from the specification encoding at byte {k}",
                             {"stream": "m17mod", "ops": [f"mod_lich {seg} ...", f"mod_data {fn} ...", ln[:200]], "impl": a, "spec": want})
+        # the Lean model of m17-mod's frame builders (M17.TxMod, about which C13T proves "= Spec.Tx") against the real functions, same requests
+        if ctx.model_ok:
+            ctx.compare("txmod", ml, mo, ctx.run_model(ml), oracle=lambda ln, a: None, sig=lambda ln: ln.split()[0])
+            ctx.compare("txmod", fl, o, ctx.run_model(fl), oracle=lambda ln, a: None, sig=lambda ln: ln.split()[0])
+            ctx.compare("txmod", al, ao, ctx.run_model(al), oracle=lambda ln, a: None, sig=lambda ln: ln.split()[0])
+            ctx.traces += len(ml) + len(fl) + len(al)
         # ---------------- BERT frames, preamble, EOT ----------------
         st = rng.randrange(1, 512)
         a = ctx.run_impl(exe, [f"mod_bert {st} 3", "mod_preamble 1 0", "mod_eot 1 0"], "m17mod")
